@@ -217,6 +217,9 @@ func (e *hcEval) eval1(v ssa.Value) tmpl {
 		if f == nil {
 			return tmpl{}
 		}
+		if isBuilderRead(f) {
+			return e.builderTemplate(x)
+		}
 		switch f.String() {
 		case "fmt.Sprintf":
 			fs, ok := world.ConstString(x.Call.Args[0])
@@ -249,6 +252,124 @@ func (e *hcEval) eval1(v ssa.Value) tmpl {
 		return tmpl{}
 	}
 	return tmpl{}
+}
+
+// builderTemplate: the text written into a strings.Builder / bytes.Buffer before the read rd, for the
+// common shape "straight-line writes, loops whose body only appends, straight-line writes": the CFG
+// is walked from the entry along the unique path of blocks that dominate rd; a loop on the way (a
+// block with a back edge) contributes one repeated part made of the writes in the loop's blocks.
+// Anything else (writes under conditions) gives up.
+func (e *hcEval) builderTemplate(rd *ssa.Call) tmpl {
+	if len(rd.Call.Args) == 0 {
+		return tmpl{}
+	}
+	recv := rd.Call.Args[0]
+	if _, ok := recv.(*ssa.Alloc); !ok {
+		return tmpl{}
+	}
+	fn := rd.Parent()
+	writeT := func(in ssa.Instruction) (tmpl, bool) {
+		val, fp, ok := builderWrite(in, recv)
+		if !ok {
+			return tmpl{}, false
+		}
+		if fp != nil {
+			if fp.Call.StaticCallee().String() == "fmt.Fprintf" && len(fp.Call.Args) >= 3 {
+				if fs, ok := world.ConstString(fp.Call.Args[1]); ok {
+					return e.sprintf(fs, varargsOf(fp.Call.Args[2])), true
+				}
+			}
+			return tmpl{}, true
+		}
+		if isStringy(val.Type()) || isByteSlice(val.Type()) {
+			return e.eval(val), true
+		}
+		return tmpl{}, true
+	}
+	blockT := func(b *ssa.BasicBlock, upto ssa.Instruction) tmpl {
+		t := lit("")
+		for _, in := range b.Instrs {
+			if in == upto {
+				break
+			}
+			if w, ok := writeT(in); ok {
+				t = cat(t, w)
+			}
+		}
+		return t
+	}
+	hasWrite := func(b *ssa.BasicBlock) bool {
+		for _, in := range b.Instrs {
+			if _, _, ok := builderWrite(in, recv); ok {
+				return true
+			}
+		}
+		return false
+	}
+	target := rd.Block()
+	out := lit("")
+	for _, b := range fn.Blocks {
+		if b == target {
+			return cat(out, blockT(b, rd))
+		}
+		if b.Dominates(target) {
+			out = cat(out, blockT(b, nil))
+			continue
+		}
+		if !hasWrite(b) {
+			continue
+		}
+		// a writing block that does not dominate the read: accepted only as the body of a loop whose
+		// header dominates the read (every iteration appends the same shape)
+		inLoop := false
+		for d := b.Idom(); d != nil; d = d.Idom() {
+			if d.Dominates(target) {
+				// d is the innermost dominator of b that also dominates the read: b is in a loop headed at d
+				// iff some block dominated by d branches back to d
+				for _, p := range d.Preds {
+					if d.Dominates(p) && (p == b || b.Dominates(p) || pathWithin(b, p, d)) {
+						inLoop = true
+					}
+				}
+				break
+			}
+		}
+		if !inLoop {
+			return tmpl{}
+		}
+		body := blockT(b, nil)
+		if !body.ok() {
+			return tmpl{}
+		}
+		var alts []string
+		for _, a := range body.alts {
+			alts = append(alts, phLoop+a+phEnd)
+		}
+		out = cat(out, tmpl{alts})
+	}
+	return tmpl{}
+}
+
+// pathWithin: p is reachable from b without passing through header h.
+func pathWithin(b, p, h *ssa.BasicBlock) bool {
+	seen := map[*ssa.BasicBlock]bool{h: true}
+	var dfs func(x *ssa.BasicBlock) bool
+	dfs = func(x *ssa.BasicBlock) bool {
+		if x == p {
+			return true
+		}
+		if seen[x] {
+			return false
+		}
+		seen[x] = true
+		for _, s := range x.Succs {
+			if dfs(s) {
+				return true
+			}
+		}
+		return false
+	}
+	return dfs(b)
 }
 
 // extends: v is phi extended by some text (v = phi + part, append(phi, part...), possibly through a
